@@ -45,8 +45,8 @@ PROPS = {
     },
     "C04": {
         "engine": "A", "level": "exploration",
-        "tiers": {"quick": {"batches": 16, "runs": 300, "budget_s": 70, "floor_runs": 1500},
-                  "thorough": {"batches": 64, "runs": 4000, "budget_s": 700, "floor_runs": 50000}},
+        "tiers": {"quick": {"batches": 16, "runs": 180, "budget_s": 70, "floor_runs": 1200},
+                  "thorough": {"batches": 64, "runs": 2500, "budget_s": 900, "floor_runs": 50000}},
         "rule": "one run = 1-3 client actors sharing one Hugr (plus 0-2 auxiliary HUGRs with their own actor, used as "
                 "insertion sources); the seeded scheduler picks which actor makes the next call among add_node / add_const / "
                 "add_link / add_order_link / delete_link (existing, parallel, middle-of-fan-out, absent) / delete_node (leaf) / "
